@@ -3,7 +3,7 @@
     Handlers.v, and the C04 / C09 / C15 predicates evaluated on the OBSERVED
     replies, backend calls and fid tables.  Evaluated by vm_compute. *)
 From Coq Require Import NArith ZArith List String Ascii Bool.
-From P9V Require Import Base.Str gen.ConstGen Server.State Server.Msg Server.SessionSpec Server.Handlers.
+From P9V Require Import Base.Str gen.ConstGen Server.State Server.Msg Server.SessionSpec Server.Handlers Server.OpenPar.
 Import ListNotations.
 Open Scope N_scope.
 
@@ -17,7 +17,10 @@ Record ostep := mkStep {
   os_reduced : bool            (* a panic hit the map-order dependent tail of a rename *)
 }.
 
-Inductive srvcase := CHist (steps : list ostep).
+(** [CPar]: two Tlopen (flags [fa], [fb]) IN FLIGHT TOGETHER on one unopened fid of a regular file (the second
+    sent while the first is inside the gated backend Open): their replies and the answers File.Open gave, in
+    call order.  Judged by the interleaving model Server/OpenPar.v. *)
+Inductive srvcase := CHist (steps : list ostep) | CPar (fa fb : N) (ra rb : reply) (opens : list answer).
 
 Definition list_eqb {A} (eqb : A -> A -> bool) : list A -> list A -> bool :=
   fix go a b := match a, b with
@@ -266,7 +269,12 @@ Fixpoint run_hist (steps : list ostep) (i : nat) (s : sstate) (nh : N) (modes : 
   end.
 
 Definition judge (c : srvcase) : verdict :=
-  match c with CHist steps => run_hist steps 0%nat init_state 1 [] (mkVerdict None None None None) end.
+  match c with
+  | CHist steps => run_hist steps 0%nat init_state 1 [] (mkVerdict None None None None)
+  | CPar fa fb ra rb opens =>
+      mkVerdict (if par_agrees fa fb ra rb opens then None else Some 0%nat)
+                (if par_ok ra rb opens then None else Some 0%nat) None None
+  end.
 
 Definition agrees (c : srvcase) : bool := match vd_mismatch (judge c) with None => true | Some _ => false end.
 
